@@ -92,6 +92,8 @@ def float_solver(chk: Check, n):
         chk.branch(f"float:ratio={round(ratio, 3)}")
         # ---- solve for the effect size at several n_obs
         ns = (int(rng.choice([50, 400, 5000, 10**5])), int(rng.choice([200, 3000, 10**6])))
+        if i % 4 == 1:
+            ns = ns + (ns[0],)               # a repeated value is legitimate input: one row per entry, in order
         try:
             res = tt.Mean(*cols, n_obs=ns, **kw).solve_power(data, "effect_size")
         except Exception as ex:  # noqa: BLE001
@@ -114,6 +116,8 @@ def float_solver(chk: Check, n):
         # ---- solve for n_obs at several effects (designs needing more than ~4*max(r,1/r) observations)
         sd = math.sqrt(var)
         effs = tuple(sign * sd * e for e in (rng.uniform(0.01, 0.08), rng.uniform(0.08, 0.4)))
+        if i % 4 == 2:
+            effs = effs + (effs[0],)
         try:
             resn = tt.Mean(*cols, effect_size=effs, **kw).solve_power(data, "n_obs")
         except Exception as ex:  # noqa: BLE001
